@@ -287,6 +287,8 @@ pub struct Exec<'a> {
     q_est: HashMap<u32, u8>,
     // C04
     maint_inside_op: bool,
+    /// sum of in-place growths since the previous quiescent point
+    window_growth: u64,
     allowed_excess: u64,
     /// concurrent cache: sum of in-place weight growths since the cache was last seen within capacity
     sync_growth: u64,
@@ -349,6 +351,7 @@ impl<'a> Exec<'a> {
             window: Vec::new(),
             q_est: HashMap::new(),
             maint_inside_op: false,
+            window_growth: 0,
             allowed_excess: 0,
             sync_growth: 0,
             rec: Vec::new(),
@@ -1127,6 +1130,7 @@ impl<'a> Exec<'a> {
         if sync {
             self.sync_growth += growth.unwrap_or(0);
         }
+        self.window_growth += growth.unwrap_or(0);
         let quiescent_point = if sync { explicit_sync && post.quiescent() } else { true };
         let is_time = matches!(prim, Prim::Advance { .. } | Prim::AdvanceTo { .. } | Prim::IterAdvance { .. } | Prim::Handle { .. });
         if !is_time && !matches!(prim, Prim::Sync) {
@@ -1289,6 +1293,26 @@ impl<'a> Exec<'a> {
         for m in self.keys.values_mut() {
             m.pend_reads = 0;
             m.pend_writes = 0;
+        }
+
+        // ---- C04, progress: excess left by earlier in-place growths must shrink --------
+        // "... which following operations remove": an operation that runs the maintenance
+        // and did not itself grow an entry either brings the cache within its capacity or
+        // evicts a full batch (100 entries single-threaded, 500 per maintenance run)
+        let grew = std::mem::take(&mut self.window_growth);
+        if self.flags.cap && grew == 0 {
+            if let Some(c) = cap {
+                let prev_w: u64 = self.q_prev.entries.iter().map(|e| weight_of(self.cfg, e.w_val) as u64).sum();
+                let ran_maintenance = sync || window.iter().any(|w| matches!(w.prim, Prim::Insert { .. } | Prim::Get { .. } | Prim::Contains { .. } | Prim::Invalidate { .. }));
+                if prev_w > c && phys_w > c && ran_maintenance {
+                    let removed = self.q_prev.entries.iter().filter(|e| !post.has(e.k)).count();
+                    let batch = if sync { 500 } else { 100 };
+                    if removed < batch {
+                        viol!("C04", step, "the cache was over capacity ({prev_w} > {c}) before {:?}, which runs the maintenance and grows nothing; afterwards it is still over capacity ({phys_w}) although only {removed} entries (less than one eviction batch of {batch}) were removed", window.last().map(|w| format!("{:?}", w.prim)).unwrap_or_else(|| "sync()".into()));
+                    }
+                    self.stats.inc("over_capacity_progress_checks");
+                }
+            }
         }
 
         // observed removals since the previous quiescent point, classified by the model
@@ -1525,11 +1549,24 @@ impl<'a> Exec<'a> {
         // weight; the excess over max_capacity is evicted once, at the end.
         let mut eff: Vec<WindowOp> = window.to_vec();
         if window.len() > 1 {
-            let only_inserts = window.iter().all(|w| matches!(w.prim, Prim::Insert { .. }));
-            if sync && only_inserts && self.pre.write_q == window.len() && self.pre.read_q == 0 {
+            // ... or inserts and gets, all of them still queued: maintenance applies the
+            // recorded reads first (in recording order), then the writes (in queueing order).
+            // A recorded hit moves its entry to the MRU position if the entry is admitted
+            // (whether or not an update of the key is pending); hits on keys inserted in this
+            // very window find an entry that is not admitted yet and move nothing.
+            let only_ins_get = window.iter().all(|w| matches!(w.prim, Prim::Insert { .. } | Prim::Get { .. }));
+            let n_ins = window.iter().filter(|w| matches!(w.prim, Prim::Insert { .. })).count();
+            let n_get = window.len() - n_ins;
+            if sync && only_ins_get && !sync_expiry && self.pre.write_q == n_ins && self.pre.read_q == n_get {
                 eff.clear();
+                for w in window.iter().filter(|w| matches!(w.prim, Prim::Get { .. })) {
+                    eff.push(w.clone());
+                }
+                if n_get > 0 {
+                    self.stats.inc("batch_windows_with_gets_followed");
+                }
                 for (i, w) in window.iter().enumerate() {
-                    let Prim::Insert { k, .. } = w.prim else { unreachable!() };
+                    let Prim::Insert { k, .. } = w.prim else { continue };
                     let later = window[i + 1..].iter().any(|w2| matches!(w2.prim, Prim::Insert { k: k2, .. } if k2 == k));
                     if !later {
                         eff.push(w.clone());
@@ -1541,6 +1578,17 @@ impl<'a> Exec<'a> {
                 self.stats.inc("prediction_abandoned");
                 return Ok(());
             }
+        }
+        // Estimates at admission time: those read at the previous quiescent point; but if
+        // the window holds gets, maintenance applied them (and nothing else feeds the
+        // estimator) before the first write, so the estimates are read now.
+        let window_has_gets = window.len() > 1 && window.iter().any(|w| matches!(w.prim, Prim::Get { .. }));
+        if sync && window_has_gets {
+            let mut m = HashMap::new();
+            for k in self.universe() {
+                m.insert(k, self.subr().freq(k));
+            }
+            self.q_est = m;
         }
         let cap = self.cfg.cap;
         let mut rec = self.rec.clone();
